@@ -528,3 +528,7 @@ PROPS["C04"]["runs"] += [
     _bls("verifH_C04_classify", ["bls_c04.go.txt"], name="TBLS.ClassifyMsg: rounds and classes", count=["assert:C04-", "panic:"], covers=["classified", "rejected"], bounds={"payloads": "two, 2 symbolic bytes each"}),
     _ps("verifH_C04_classify", ["ps_c04.go.txt"], name="TPS.ClassifyMsg: rounds and classes", count=["assert:C04-", "panic:"], covers=["classified", "rejected"], bounds={"payloads": "two, 2 symbolic bytes each"}),
 ]
+
+PROPS["C01"]["runs"].append(
+    _bls("verifH_C01_commute", ["bls_c01b.go.txt"], name="OnMsg order independence lemma", count=["assert:C01-", "panic:"], covers=["end"],
+         bounds={"state": "initialised, n=3", "messages": "two arbitrary well-formed messages (share / commitment / reveal) from different senders or of different type"}))
